@@ -751,6 +751,20 @@ def text_laws(route):
                 v.append((f'text-roundtrip:update:{fn}:nothing-emitted{tag}', f'{route.extensive()[:200]}'))
                 continue
             body = packed[0][19:]
+            # RFC 4760 3 / RFC 4364 4.3.2 / RFC 7752 3.4: the next hop of MP_REACH_NLRI is one (or two, IPv6 with link-local)
+            # addresses of the next-hop family, each behind an all-zero route distinguisher for the VPN families (SAFI 128,
+            # BGP-LS-VPN 72) and for those only - read with the reference walker, not with ExaBGP's decoder
+            try:
+                wl = struct.unpack('!H', body[:2])[0]
+                al = struct.unpack('!H', body[2 + wl:4 + wl])[0]
+                for flags, code, value in wire.walk_attrs(body[4 + wl:4 + wl + al]):
+                    if code == 14 and len(value) >= 4:
+                        mp_safi, nhlen = value[2], value[3]
+                        allowed = (12, 24, 48) if mp_safi in (128, 72) else (0, 4, 16, 32)
+                        if nhlen not in allowed:
+                            v.append((f'text-roundtrip:update:{fn}:mp-nexthop-length{tag}', f'MP_REACH_NLRI for SAFI {mp_safi} carries a next hop of {nhlen} octets, the RFC forms are {allowed}: {packed[0].hex()[:200]}'))
+            except (struct.error, IndexError, ValueError):
+                pass
             AttributeCollection.cached = None
             upd = UpdateCollection.unpack_message(body, nin)
             if not upd.announces:
